@@ -146,6 +146,8 @@ Step ==
             /\ store' = Empty /\ cfg' = cfg /\ insOnly' = FALSE
             /\ viol' = viol \cup (IF t.res = "ok" THEN {} ELSE {<<l, "RtErr">>}) \cup FullViol(t, Empty, FALSE)
                             \cup (IF t.full = 1 /\ (t.st.tomb # 0 \/ Len(t.st.ep) # 0) THEN {<<l, "RtStale">>} ELSE {})
+       [] t.ev = "loading" ->      \* marker written before each stream load (see the harness)
+            UNCHANGED <<store, cfg, insOnly, viol>>
        [] t.ev = "stream" ->
             /\ store' = store /\ cfg' = cfg /\ insOnly' = insOnly
             /\ viol' = viol \cup StreamViol(t)
